@@ -40,7 +40,7 @@ func (a *Act) instr(st *State, b *ssa.BasicBlock, instr ssa.Instruction) {
 			key := fmt.Sprintf("assert/%p/%s/%d/%d/%d", a, aa.src, aa.occ, pp.Line, ai)
 			if !tr.atDone[key] {
 				tr.atDone[key] = true
-				e := &specEnv{a: a, tr: tr, pkg: a.contract.pkg, st: st, old: a.entryState, vars: map[string]specVal{}, errs: &tr.specErrs, preferLocals: true}
+				e := &specEnv{a: a, tr: tr, pkg: a.contract.pkg, st: st, old: a.entryState, vars: map[string]specVal{}, errs: &tr.specErrs, preferLocals: true, atLi: a.innermostLoop(b)}
 				g := e.evalBool(aa.cl.expr)
 				fname := fnName(a.fn)
 				base := fmt.Sprintf("%s/assert/«%s»@«%s»", fname, normSrc(aa.cl.text), aa.src)
